@@ -104,8 +104,10 @@ ASSUMPTIONS = [
     'is exempt; all such exemptions are counted in the evidence (exempt_near)',
     'the Box.vects setter zeroes entries below 1e-9 of the largest one: the alignment refusal is modelled with that relative '
     'bound on squared quantities',
-    'ceil(amin / a), boundarywidth * ucell.a and center . rcell.vects are computed by the harness with the same float '
-    'expressions as the code and passed to the model',
+    'ceil(amin / a), boundarywidth * ucell.a and center . rcell.vects are computed by the harness in floats and passed to '
+    'the mono / array model runs; the centre and the width are checked on every configuration against the model\'s own '
+    'exact conversion (resolveCenter, resolveWidth; driver op params), ceil(amin / a) against an exact rational ceiling '
+    'in the oracle (ratios within 1e-12 of an integer exempt)',
 ]
 TRUSTED = ['numpy array arithmetic in the implementation run', 'the elastic solver (C12) as a black box supplying u',
            'System.supersize / System.wrap models of C04 / C05 (imported definitions, re-tied here through the reference and '
@@ -2732,7 +2734,9 @@ MANIFEST = {
             'u(pos - center), pbc along the line, wrap, box / cylinder boundary re-typing in squared form) and periodic '
             'array (face atoms, slip-plane refusal, tilt by -+b/2, linear field, duplicate detection with the shared dvect '
             'model, expected-count test, old_id, blending, boundary), and of atomman.defect.disregistry (adjoining planes, '
-            'atomic columns, column means, np.interp). Proved for every ordered field and every '
+            'atomic columns, column means, np.interp), and of the parameter handling (set_shift over histories of calls '
+            'on one object: constructor, set_shift, generator calls; centerscale / boundaryscale conversions). '
+            'Proved for every ordered field and every '
             'displacement field u: shifts put the slip plane midway between consecutive atomic planes; multipliers even and '
             'symmetric across the line; the reference system is the shifted crystal (count, order, types, lattice '
             'translations); the monopole keeps every atom with pos\' = pos + u(pos - center) modulo the line vector only, is '
@@ -2741,6 +2745,9 @@ MANIFEST = {
             'planes adjoining planepos, depends on planepos only through that gap, and needs no interpolation at common '
             'columns; selected cell vectors obey the '
             'zone law and are right handed in all six orders; the linear field accumulates exactly one Burgers vector; '
+            'the shift used is the shift requested for every way of naming it and either value of shiftscale, a shift '
+            'named by index or default lies midway between atomic planes, a generator without shift arguments keeps the '
+            'object\'s shift, refused calls change nothing; '
             'old_id maps every remaining atom of an array to its reference atom; the deletion count equals the count '
             'implied by the volume change (partial). Tied to the code by a differential run on fcc/bcc/hcp/bct/orthorhombic/'
             'monoclinic/triclinic cells and slip systems (whole configurations, the region at probe widths beside every face, '
